@@ -45,7 +45,7 @@ func genCondCase(rt *rapid.T) CondCase {
 			o.VSel, o.VArg = "existing", rapid.IntRange(0, 3).Draw(rt, "idx")
 		}
 		return o
-	}), 1, 30).Draw(rt, "ops")
+	}), h.LenBias(rt, 1, 30), 30).Draw(rt, "ops")
 	if rapid.Bool().Draw(rt, "prefix") {
 		// start from a secret that already has two versions with the newer one active
 		c.Ops = append([]dbx.Op{{Kind: "put", Name: "a", Val: []byte("x")}, {Kind: "put", Name: "a", Val: []byte("y")}, {Kind: "activate", Name: "a", VSel: "latest"}}, c.Ops...)
@@ -187,7 +187,7 @@ func runC09(t *testing.T, c CondCase) (*h.Violation, h.Info) {
 
 var c09 = &h.Campaign[CondCase]{
 	Prop: "C09", Sub: "cond",
-	Rule: "rapid: histories (1-30 calls) of put/activate/delete-version/delete by a superuser interleaved with conditional gets carrying V in {0, active, latest, latest+1, existing[i], deleted[i], 2^32-1, absolute} by an allowed or a partially allowed caller, through db.DB or HTTP handlers + setec.Client; at every conditional get the same question is also put to a FileClient built from a secrets file rendered from the model's active set (Value or TextValue spelling); non-trivial = a conditional get on an existing, permitted secret after an activation back to an older version, or with V naming a deleted/never-existing version; distinct by scenario",
+	Rule: "rapid: histories (1-30 calls) of put/activate/delete-version/delete by a superuser interleaved with conditional gets carrying V in {0, active, latest, latest+1, existing[i], deleted[i], 2^32-1, absolute} by an allowed or a partially allowed caller, through db.DB or HTTP handlers + setec.Client; at every conditional get the same question is also put to a FileClient built from a secrets file rendered from the model's active set (Value or TextValue spelling) plus two hand-maintained entries without a usable version number, for which GetIfChanged(name, 0) must agree with Get(name); non-trivial = a conditional get on an existing, permitted secret after an activation back to an older version, or with V naming a deleted/never-existing version; distinct by scenario",
 	Quick: 10000, Thorough: 1500000,
 	Gen:   genCondCase,
 	Run:   runC09,
